@@ -15,7 +15,8 @@ RULE = (
 )
 ASSUMPTIONS = [
     "great-circle reference uses the spherical Earth of radius 6 371 000 m (the value the code documents)",
-    "offsets straddling the antimeridian are outside 'local' and not generated",
+    "reference points next to the antimeridian are included: the inverse may return longitudes beyond +-180 (unwrapped), which the "
+    "forward map and the great-circle reference accept",
 ]
 MIN_NONTRIVIAL = {"quick": 2000, "thorough": 20000}
 TIMEOUT = {"quick": 600, "thorough": 1500}
@@ -63,7 +64,7 @@ def run_case(case):
         strat = j % 4
         if strat == 0:  # corners of the quantifier
             lat0 = float(rng.choice([-60.0, 60.0, 0.0, 59.999, -59.999]))
-            lon0 = float(rng.choice([-179.9, 179.9, 0.0, 90.0, -90.0]))
+            lon0 = float(rng.choice([-179.99, 179.99, 180.0, -180.0, 179.9, 0.0, 90.0, -90.0]))
             brg = float(rng.choice([0, 90, 180, 270, 45, 135, 225, 315]))
             dist = float(rng.choice([0.0, 0.5, 5000.0, 4999.0]))
         else:
@@ -73,9 +74,6 @@ def run_case(case):
             dist = float(10 ** rng.uniform(-0.3, math.log10(5000.0)))
         # keep the point's latitude inside the quantifier and away from the antimeridian
         x, y = dist * math.sin(math.radians(brg)), dist * math.cos(math.radians(brg))
-        dlon_max = math.degrees(5000.0 / (R * math.cos(math.radians(60.0)))) + 1e-3
-        if abs(lon0) + dlon_max >= 180.0:
-            lon0 = math.copysign(180.0 - dlon_max - 1e-6, lon0)
         pts.append((lat0, lon0, x, y, dist, brg))
 
     for lat0, lon0, x, y, dist, brg in pts:
@@ -130,6 +128,8 @@ def run_case(case):
                     viol.append({"what": "bearing", "ref": (lat0, lon0), "latlon": (la, lo), "local_deg": b_loc, "great_circle_deg": b_gc, "diff": db})
             cell = (int((lat0 + 60) // 20), int((lon0 + 180) // 60), int(math.log10(max(dist, 0.5)) + 1), int(brg // 45) % 8)
             sigs.add(f"{lat0:.6f},{lon0:.6f},{x:.3f},{y:.3f}")
+            if abs(lo) > 180.0 or (abs(lon0) > 179.9 and (lo - lon0) * lon0 > 0):
+                buckets["crosses_antimeridian"] = buckets.get("crosses_antimeridian", 0) + 1
             b = f"lat{cell[0]}_dist1e{cell[2]}"
             buckets[b] = buckets.get(b, 0) + 1
         if sample is None and dist > 100:
